@@ -98,12 +98,16 @@ def parse_bounds(index):
     OPS = {ast.Lt: "<", ast.LtE: "<=", ast.Gt: ">", ast.GtE: ">="}
     FLIP = {"<": ">", "<=": ">=", ">": "<", ">=": "<="}
 
+    row_env = {}          # names bound by the row of a table the enclosing loop iterates over (several names per row)
+
     def key_of(e, var, value, locals_):
         if isinstance(e, ast.Name) and e.id in locals_:
             e = locals_[e.id]
         if isinstance(e, ast.Subscript) and norm_src(e.value) == "country_data":
             if str_const(e.slice):
                 return str_const(e.slice)
+            if isinstance(e.slice, ast.Name) and isinstance(row_env.get(e.slice.id), str):
+                return row_env[e.slice.id]
             if var is not None:
                 try:
                     k = str_eval(e.slice, var, value)
@@ -113,12 +117,20 @@ def parse_bounds(index):
         return None
 
     def lit(e):
+        if isinstance(e, ast.Name) and isinstance(row_env.get(e.id), (int, float)) and not isinstance(row_env.get(e.id), bool):
+            return float(row_env[e.id])
         if isinstance(e, (ast.Constant, ast.UnaryOp, ast.BinOp)):
             try:
                 return float(ast.literal_eval(e))
             except Exception:
                 return None
         return None
+
+    def table_of(it):
+        from .symx import Interp as _I17
+        if isinstance(it, ast.Name) and _I17.global_literals is not None and it.id in _I17.global_literals:
+            return _I17.global_literals[it.id]
+        return it
 
     def scan(stmts, var, value):
         locals_ = {}
@@ -142,10 +154,23 @@ def parse_bounds(index):
                         k, v = key_of(r, var, value, locals_), lit(l)
                         if k is not None and v is not None:
                             out.append((k, FLIP[op], v))
-            elif isinstance(st, ast.For) and var is None and isinstance(st.target, ast.Name) and isinstance(st.iter, (ast.List, ast.Tuple)) \
-                    and all(isinstance(e, ast.Constant) and isinstance(e.value, (str, int)) for e in st.iter.elts):
-                for e in st.iter.elts:
+            elif isinstance(st, ast.For) and var is None and isinstance(st.target, ast.Name) and isinstance(table_of(st.iter), (ast.List, ast.Tuple)) \
+                    and all(isinstance(e, ast.Constant) and isinstance(e.value, (str, int)) for e in table_of(st.iter).elts):
+                for e in table_of(st.iter).elts:
                     scan(st.body, st.target.id, e.value)
+            elif isinstance(st, ast.For) and var is None and isinstance(st.target, ast.Tuple) and all(isinstance(t_, ast.Name) for t_ in st.target.elts) \
+                    and isinstance(table_of(st.iter), (ast.List, ast.Tuple)):
+                # for column, bound, ... in <table of rows>: one pass per row with the row's constants bound
+                for row in table_of(st.iter).elts:
+                    if isinstance(row, (ast.Tuple, ast.List)) and len(row.elts) == len(st.target.elts):
+                        row_env.clear()
+                        for t_, v_ in zip(st.target.elts, row.elts):
+                            try:
+                                row_env[t_.id] = ast.literal_eval(v_)
+                            except Exception:
+                                pass
+                        scan(st.body, None, None)
+                        row_env.clear()
 
     scan(fn.body, None, None)
     if len(out) < 60:
